@@ -74,7 +74,12 @@ def integerise(Q, Ts, rc, n_bins, n_median_bins):
         V2 = [[(int(2 * d[j, i] * scale) if float(2 * d[j, i] * scale).is_integer() else -1) for i in range(nq)] for j in range(nt)]
     else:
         V2 = [[-1] * nq for _ in range(nt)]
-    return G, off, [t.shape[1] for t in Ts], V2
+    # is the integerisation robust against last-bit noise (summation order of the binned median)?  the integer shift is
+    # floor(min(gamma - median)) and the scale floor(n_bins / range): both flip when their argument sits on an integer
+    frac = float(d.min())                      # = z_min - floor(z_min), in [0, 1)
+    ratio = n_bins / float(d.max())
+    robust = 1e-9 < frac < 1 - 1e-9 and abs(ratio - round(ratio)) > 1e-9
+    return G, off, [t.shape[1] for t in Ts], V2, robust
 
 
 def hash_injective(Ts, n_target_bins):
@@ -92,6 +97,31 @@ def hash_injective(Ts, n_target_bins):
     # keep away from rounding ties of the hash itself
     frac = (T - lo) / (hi - lo) * (n_target_bins - 1)
     return bool((numpy.abs(frac - numpy.floor(frac) - 0.5) > 1e-6).all())
+
+
+def hashed_integerisation_same(Q, Ts, rc, n_bins, n_target_bins, G, off):
+    """the code's integeriser on the hashed representation (unique pooled columns with multiplicities), expanded back: is it the
+    integerisation (G, off) of the unhashed call?  It need not be: the binned median of k equal values is (k*v)/k, an ulp away
+    from v, and floor() of a minimum that is exactly 0 then flips the integer shift -- the scores of the two calls are then on
+    different scales and are not comparable (the statement fixes scores only relative to the integerisation used)."""
+    Ts = list(Ts)
+    if rc:
+        Ts = Ts + [t[::-1, ::-1] for t in Ts]
+    T = numpy.ascontiguousarray(numpy.concatenate(Ts, axis=-1))
+    lo = T.min(axis=-1, keepdims=True); hi = T.max(axis=-1, keepdims=True)
+    hi = numpy.where(hi == lo, lo + 1, hi)
+    codes = numpy.around((T - lo) / (hi - lo) * (n_target_bins - 1))
+    codes = codes.T.dot(n_target_bins ** numpy.arange(len(T))[:, None])
+    _, idx, inv, cnt = numpy.unique(codes.flatten(), return_index=True, return_inverse=True, return_counts=True)
+    Tu = numpy.ascontiguousarray(T[:, idx])
+    Qc = numpy.ascontiguousarray(Q)
+    nq, nu = Q.shape[1], Tu.shape[1]
+    gamma = numpy.zeros((nu, nq)); gi = numpy.zeros((nu, nq), dtype="int64")
+    f = numpy.zeros((nq, n_bins + 1)); med = numpy.zeros(nq); mb = numpy.zeros((1000, 2))
+    o = int(TT._integer_distances_and_histogram(Qc, Tu, gamma, gi, f, med, mb, (Qc ** 2).sum(axis=0), (Tu ** 2).sum(axis=0),
+                                                 cnt.astype("int64"), 0, nq, n_bins))
+    Gh = [[int(gi[inv[j], nq - 1 - i]) + o for i in range(nq)] for j in range(T.shape[1])]
+    return o == off and Gh == G
 
 
 def gen_case(rng, cid, big=False):
@@ -151,7 +181,7 @@ def handler(case):
         if ig is None:
             out.append(dict(id=c["id"], skipped="degenerate"))
             continue
-        G, u, tlens, V2 = ig
+        G, u, tlens, V2, robust = ig
         tcols = [col for t in c["ts"] for col in t]
         if c["rc"]:
             tcols = tcols + [col[::-1] for t in c["ts"] for col in t[::-1]]
@@ -176,7 +206,7 @@ def handler(case):
             # column hashing, where it is injective (distinct pooled target columns get distinct codes), must not change anything:
             # the same call with n_target_bins=100, then with the target list reversed, then reverse-complemented -- all in this
             # process, one after the other (same shapes and sums, different column order)
-            if hash_injective(Ts, 100):
+            if robust and hash_injective(Ts, 100) and hashed_integerisation_same(Q, Ts, c["rc"], c["n_bins"], 100, G, u):
                 rec["hashed"] = 1
                 kwh = dict(n_score_bins=c["n_bins"], n_target_bins=100, reverse_complement=c["rc"], n_jobs=1)
                 for name, Tv, perm in (("hash_same", Ts, False), ("hash_rev_same", Ts[::-1], True),
